@@ -819,6 +819,16 @@ func (vfs *OrefaFS) Rename(oldname, newname string) error {
 		return &os.LinkError{Op: op, Old: oldname, New: newname, Err: err}
 	}
 
+	if strings.HasPrefix(nAbsPath, oAbsPath+string(vfs.PathSeparator())) {
+		// a directory can't be moved below itself (and nothing is below a file).
+		err := vfs.err.NotADirectory
+		if oChild.mode.IsDir() {
+			err = vfs.err.InvalidArgument
+		}
+
+		return &os.LinkError{Op: op, Old: oldname, New: newname, Err: err}
+	}
+
 	nParent.mu.Lock()
 	defer nParent.mu.Unlock()
 
